@@ -30,7 +30,8 @@ fn match_table(toks: &[Tok]) -> Vec<Option<usize>> {
     for (i, t) in toks.iter().enumerate() {
         match t.k {
             TK::Start => stack.push(i),
-            TK::End => {
+            // (an end tag marked as stray closes nothing)
+            TK::End if t.attrs.is_empty() => {
                 if let Some(s) = stack.pop() {
                     m[s] = Some(i);
                     m[i] = Some(s);
@@ -40,6 +41,12 @@ fn match_table(toks: &[Tok]) -> Vec<Option<usize>> {
         }
     }
     m
+}
+
+/// a surplus end tag: tolerated with allow_unmatched_ends and name checks off; it closes
+/// nothing lexically but shifts the reader's own open-element stack
+fn stray_end(name: &str) -> Tok {
+    Tok { k: TK::End, raw: format!("</{}>", name).into_bytes(), name: name.to_string(), attrs: vec![("stray".to_string(), String::new())] }
 }
 
 fn panic_to_violation(p: &crate::core::PanicInfo, plan: &Plan, what: &str, monitor_prop: &'static str, out: &mut Vec<Violation>) {
@@ -166,6 +173,23 @@ impl Scenario for Skip {
                 p.note.push_str(" embedded windows-1251 declaration");
             }
         }
+        // surplus end tags inside the elements (only read with unmatched ends allowed and name
+        // checks off, where they are no error): the element to skip is still open in the
+        // document although the reader's own stack has been popped too far
+        let strays = rng.chance(1, 10);
+        if strays {
+            for _ in 0..rng.range(1, 2) {
+                let first = toks.iter().position(|t| t.k == TK::Start);
+                let last = toks.iter().rposition(|t| t.k == TK::End);
+                if let (Some(a), Some(b)) = (first, last) {
+                    if b > a {
+                        let at = rng.range(a + 1, b);
+                        toks.insert(at, stray_end(*rng.pick(&["zz", "q9", "a.b"])));
+                    }
+                }
+            }
+            p.note.push_str(" surplus end tags");
+        }
         p.toks = toks;
         p.sync_doc();
         let mut cfg = CFG_TRIM_NAMES;
@@ -173,6 +197,10 @@ impl Scenario for Skip {
             if rng.bool() {
                 cfg |= b;
             }
+        }
+        if strays {
+            cfg |= CFG_ALLOW_UNMATCHED;
+            cfg &= !CFG_CHECK_END_NAMES;
         }
         if rng.chance(1, 5) {
             cfg |= CFG_CHECK_COMMENTS;
@@ -182,7 +210,7 @@ impl Scenario for Skip {
         p.stream = gen_hist_stream(rng, &p.doc, 2);
         let n_ops = rng.range(2, 2 * p.toks.len() + 2);
         let skip_share = *rng.pick(&[2usize, 4, 8]);
-        let flip_share = *rng.pick(&[0usize, 0, 6, 12]);
+        let flip_share = if strays { 0 } else { *rng.pick(&[0usize, 0, 6, 12]) };
         let up_share = if p.reader == ReaderKind::Plain { *rng.pick(&[0usize, 0, 2, 4]) } else { 0 };
         for _ in 0..n_ops {
             if flip_share > 0 && rng.chance(1, flip_share) {
@@ -423,7 +451,8 @@ impl Scenario for Skip {
                             None => open_known = false,
                         },
                         Out::Ev(Event::End(_)) => {
-                            if open.pop().is_none() {
+                            let stray = (0..toks.len()).any(|t| sp[t].1 as u64 == pos && toks[t].k == TK::End && !toks[t].attrs.is_empty());
+                            if !stray && open.pop().is_none() {
                                 open_known = false;
                             }
                         }
@@ -480,8 +509,8 @@ impl Scenario for Skip {
                             inner_fatal = !matches!(class, ErrClass::IllFormed);
                             break;
                         }
-                        Out::Ev(Event::Start(_)) => depth += 1,
-                        Out::Ev(Event::End(_)) => {
+                        Out::Ev(Event::Start(s)) if s.name().as_ref() == &name[..] => depth += 1,
+                        Out::Ev(Event::End(e)) if e.name().as_ref() == &name[..] => {
                             if depth == 0 {
                                 found_end = true;
                                 break;
@@ -1191,8 +1220,26 @@ impl Scenario for Ns {
                         }
                     }
                 }
-                let got: BTreeSet<(Vec<u8>, Vec<u8>)> = rd.prefixes().unwrap().into_iter().collect();
+                // "the in-scope prefix listing agrees with this": every binding in scope exactly
+                // once (the order of the listing is not part of the property)
+                let listed: Vec<(Vec<u8>, Vec<u8>)> = rd.prefixes().unwrap();
+                let got: BTreeSet<(Vec<u8>, Vec<u8>)> = listed.iter().cloned().collect();
                 let want = model_prefixes(&stack);
+                if got.len() != listed.len() {
+                    let mut l = listed.clone();
+                    l.sort();
+                    v.push(Violation::new(
+                        "C05",
+                        "wrong-prefix-listing",
+                        format!(
+                            "after op {} ({:?}): prefixes() lists a binding more than once: [{}]",
+                            oi,
+                            op,
+                            l.iter().map(|(p, u)| format!("{}={}", String::from_utf8_lossy(p), String::from_utf8_lossy(u))).collect::<Vec<_>>().join(",")
+                        ),
+                    ));
+                    return;
+                }
                 if got != want {
                     let show = |s: &BTreeSet<(Vec<u8>, Vec<u8>)>| {
                         s.iter().map(|(p, u)| format!("{}={}", String::from_utf8_lossy(p), String::from_utf8_lossy(u))).collect::<Vec<_>>().join(",")
